@@ -237,6 +237,7 @@ package server
 //@ ensures[C07,C08] gated_requests_go_no_further: emitted(Gated(_, true)) ==> none(LBServe) && none(PickLB)
 //@ ensures[C10,C02] serves_picked_balancer: count(LBServe(_, _, _)) <= 1 && count(PickLB(_, _)) <= 1
 //@ ensures[C02] no_404_502: none(ErrResp(_, 404, _)) && none(ErrResp(_, 502, _))
+//@ ensures[C19] proxy_generated_answers_are_logged_with_the_service: none(LBServe) && ctxtyp(r, LOGKEY) == typeid(*loggingRequestContext) ==> as(ctxval(r, LOGKEY), `*loggingRequestContext`).Service == s.name
 
 //@ func iface server.HealthCheckConsumer.HealthCheckCompleted
 //@ params recv, success
@@ -687,6 +688,7 @@ package server
 
 //@ func (*server.ServiceMap).ServiceForRequest
 //@ attr opaque = ets, hostBindings
+//@ ensures[C13] inbound_request_untouched: req.Host == old(req.Host) && req.URL == old(req.URL)
 //@ emits RouteLookup(m, req, result0, result1)
 //@ requires req != nil && req.URL != nil
 //@ requires bindings_wf: forall i int :: 0 <= i && i < len(hostBindings(m, routingHost(req.Host))) ==> hostBindings(m, routingHost(req.Host))[i] != nil && hostBindings(m, routingHost(req.Host))[i].service != nil
@@ -785,9 +787,9 @@ package server
 //@ attr blocks
 //@ assigns Buffer.reader, @writerFrame
 //@ may_emit WriteHeader, SendBuffer, Copy
-//@ ensures[C14] overflow_sends_nothing: old(w.buffer.overflowed) ==> err == ErrMaximumSizeExceeded && none(WriteHeader) && none(SendBuffer)
-//@ ensures[C14] hijacked_sends_nothing: !old(w.buffer.overflowed) && old(w.hijacked) ==> err == nil && none(WriteHeader) && none(SendBuffer)
-//@ ensures[C14] status_then_body: !old(w.buffer.overflowed) && !old(w.hijacked) ==> count(SendBuffer(_, _)) == 1 && (old(w.headerWritten) ==> emitted(WriteHeader(old(w.ResponseWriter), old(w.statusCode))) && first(WriteHeader(_, _), SendBuffer(_, _))) && (!old(w.headerWritten) ==> none(WriteHeader))
+//@ ensures[C14,C13,C15] overflow_sends_nothing: old(w.buffer.overflowed) ==> err == ErrMaximumSizeExceeded && none(WriteHeader) && none(SendBuffer)
+//@ ensures[C14,C13,C15] hijacked_sends_nothing: !old(w.buffer.overflowed) && old(w.hijacked) ==> err == nil && none(WriteHeader) && none(SendBuffer)
+//@ ensures[C14,C13,C15] status_then_body: !old(w.buffer.overflowed) && !old(w.hijacked) ==> count(SendBuffer(_, _)) == 1 && (old(w.headerWritten) ==> emitted(WriteHeader(old(w.ResponseWriter), old(w.statusCode))) && first(WriteHeader(_, _), SendBuffer(_, _))) && (!old(w.headerWritten) ==> none(WriteHeader))
 //@ emits SendResponse(w)
 
 //@ func (*server.bufferedResponseWriter).WriteHeader
